@@ -151,6 +151,19 @@ Proof.
     (split; [reflexivity|]); do 2 eexists; (split; [reflexivity|]); (split; [reflexivity|]); tauto.
 Qed.
 
+Theorem codecs s k :
+  decode_keyspec s = Some k ->
+  In s ["RSA-2048"; "RSA-3072"; "RSA-4096"; "EC-256"; "EC-384"; "EC-521"] /\
+  encode_keyspec k = Some s /\
+  exists h a, hash_of_keyspec k = Some h /\ alg_of_keyspec k = Some a /\
+              (h = "SHA-256" /\ hash_bits a = 256 \/ h = "SHA-384" /\ hash_bits a = 384 \/
+               h = "SHA-512" /\ hash_bits a = 512)%N.
+Proof.
+  intros H. split; [|apply codec_roundtrip; exact H].
+  apply decode_keyspec_cases in H. cbn.
+  destruct H as [[-> _]|[[-> _]|[[-> _]|[[-> _]|[[-> _]|[-> _]]]]]]; tauto.
+Qed.
+
 Lemma decode_alg s k : decode_keyspec s = Some k ->
   exists ksn hn a, encode_keyspec k = Some ksn /\ hash_of_keyspec k = Some hn /\ alg_of_keyspec k = Some a.
 Proof.
@@ -308,6 +321,11 @@ Proof.
   destruct (total i) as [[s [r H]]|[e H]]; rewrite H; discriminate.
 Qed.
 
+Theorem total_both i :
+  o_res (model i) <> RPanic /\
+  ((exists same rf, o_res (model i) = RSig same rf) \/ (exists e, o_res (model i) = RErr e)).
+Proof. split; [apply no_panic|apply total]. Qed.
+
 (* a signature is returned exactly for the accepted answers *)
 Theorem sig_iff i : (exists same rf, o_res (model i) = RSig same rf) <-> accepts i = true.
 Proof.
@@ -320,6 +338,11 @@ Qed.
 
 Theorem error_otherwise i : accepts i = false -> exists e, o_res (model i) = RErr e.
 Proof. apply model_result. Qed.
+
+Theorem sig_iff_both i :
+  ((exists same rf, o_res (model i) = RSig same rf) <-> accepts i = true) /\
+  (accepts i = false -> exists e, o_res (model i) = RErr e).
+Proof. split; [apply sig_iff|apply error_otherwise]. Qed.
 
 (* ---------- C18_envelope ---------- *)
 Theorem envelope_sound i env same rf :
